@@ -16,6 +16,7 @@ func PoolAPI(p *core.Prog, r *core.Report) {
 	const rule = "POOL-API"
 	pi := discoverPools(p)
 	si := discoverSlots(p, pi)
+	wrappers := si.releaseWrappers(p)
 	initOnly := initOnlyFuncs(p)
 
 	// (a) Get/Put only inside borrow/redeem functions
@@ -105,6 +106,25 @@ func PoolAPI(p *core.Prog, r *core.Report) {
 				if _, ok := si.origin(c.Common().Args[0], 0); ok {
 					r.OK(rule, key, p.Pos(i.Pos()), "called on a child taken from a slot (SLOT-POSTCLEAR covers the slot)")
 					return
+				}
+				// inside a release wrapper: every call site must hand it the children of a slot
+				if k, isW := wrappers[f]; isW {
+					all, nCalls := true, 0
+					for _, h := range p.Funcs {
+						core.EachInstr(h, func(j ssa.Instruction) {
+							if cj, ok := j.(ssa.CallInstruction); ok && core.StaticCallee(cj) == f {
+								nCalls++
+								if _, ok := si.wrapperRelease(cj, wrappers); !ok {
+									all = false
+								}
+							}
+						})
+					}
+					_ = k
+					if all && nCalls > 0 {
+						r.OK(rule, key, p.Pos(i.Pos()), fmt.Sprintf("release helper: each of its %d call sites passes the children of a slot (SLOT-POSTCLEAR covers the slots at the call sites)", nCalls))
+						return
+					}
 				}
 				r.Bad(rule, key, p.Pos(i.Pos()), "redeem() is called on an object that is neither the receiver of the running Validate (deferred) nor a child held in a slot: ownership of the released object is not established")
 			}
